@@ -160,11 +160,13 @@ def run(ctx):
                 ask(f"kern R fuzzy.choice {q2s(p['alpha'])} {vec_q(x)} {vec_q(w)}", ("num", T, rep, cls))
                 ask(f"kern R fuzzy.match {d} {vec_q(x)} {vec_q(w)}", ("num", M, rep, cls))
                 ask(f"kern R fuzzy.update {q2s(p['beta'])} {vec_q(x)} {vec_q(w)}", ("vec", wu, rep, cls))
-                for nn in range(1, d + 1):
+                for nn in range(0, d + 1):
+                    # every admissible request 0 <= n <= d, the empty box (n = 0) included
                     from artlib.elementary.FuzzyART import get_bounding_box
-                    ref, wid = get_bounding_box(w, nn)
-                    ask(f"kern R fuzzy.bbox {nn} {vec_q(w)}", ("bbox", (ref, wid), rep, cls))
-                    cov.hit("bbox-n<d" if nn < d else "bbox-n=d")
+                    with quiet():
+                        ref, wid = get_bounding_box(w, nn)
+                    ask(f"kern R fuzzy.bbox {nn} {vec_q(w)}", ("bbox", (ref, wid), dict(rep, n=nn), cls))
+                    cov.hit("bbox-n=0" if nn == 0 else ("bbox-n<d" if nn < d else "bbox-n=d"))
             elif cls == "ART1":
                 # oracle: a freshly created category obeys the same bottom-up rule L/(L-1+|t|) t, t = x
                 L_ = p["L"]
@@ -249,8 +251,136 @@ def run(ctx):
         else:
             cov.hit("kern-agree")
         cov.traces += 1
+    accessor_edges(ctx)
     other_modules(ctx)
     integer_typed_params(ctx)
+
+
+# ---------------------------------------------------------------- geometry accessors at the edge of their argument range
+
+
+def box_of_weight(w, n):
+    """the property's own definition: the first n coordinates of the box [u, v] stored as w = (u, 1 - v)"""
+    w = np.asarray(w, dtype=float)
+    d = len(w) // 2
+    return [float(w[k]) for k in range(n)], [float((1 - w[d + k]) - w[k]) for k in range(n)]
+
+
+def accessor_edges(ctx):
+    """Oracle (implementation alone): get_bounding_box(w, n) / FuzzyART.get_bounding_boxes(n) for EVERY admissible
+    request -- n omitted (= d), n = 0 (the box without coordinates), 0 < n < d, n = d, given as a Python int or a
+    numpy integer, positionally or by keyword -- return exactly n coordinates that agree with the stored weight, on
+    trained, arbitrary and degenerate (point / whole-cube) weights; the accessors
+    change neither the weight nor the model.  shrink_clusters at the ends of its ratio range (0: unchanged, 1/2: the
+    box collapses onto its centre) keeps the centre and stays inside the old box."""
+    from artlib.elementary.FuzzyART import get_bounding_box
+    cov = ctx.cov
+    for i in range(ctx.scale(40, 800)):
+        r = gen.rng_for(ctx.seed, "C03-acc", i)
+        d = r.randint(1, 5)
+        spec = specs.elem_spec(r, "FuzzyART", d)
+        try:
+            m, X = reach_weights(r, "FuzzyART", spec, d)
+        except Exception as e:
+            cov.hit(f"train-raised:FuzzyART:{exc_enum(e)}")
+            continue
+        pool = [("reached", np.array(w_, dtype=float)) for w_ in m.W]
+        pool.append(("arbitrary", arbitrary_weight(r, "FuzzyART", d, m)))
+        u = np.array([r.randint(0, 16) / 16 for _ in range(d)])
+        pool.append(("point-box", np.concatenate([u, 1 - u])))
+        pool.append(("whole-cube", np.zeros(2 * d)))
+        requests = [("default", None), ("0", 0), ("0", np.int64(0)), ("d", d), ("d", np.int64(d))]
+        if d > 1:
+            requests.append(("interior", r.randint(1, d - 1)))
+        for kind, w in pool:
+            for ncls, n in requests:
+                n_eff = d if n is None else int(n)
+                want = box_of_weight(w, n_eff)
+                forms = [("keyword", lambda: get_bounding_box(w, n=n))]
+                if n is None:
+                    forms.append(("omitted", lambda: get_bounding_box(w)))
+                else:
+                    forms.append(("positional", lambda: get_bounding_box(w, n)))
+                for form, call in forms:
+                    w0 = w.copy()
+                    rep = {"class": "FuzzyART", "entry": "get_bounding_box", "w": w0, "n": None if n is None else int(n),
+                           "n_type": type(n).__name__, "form": form, "weight": kind, "expected": want}
+                    try:
+                        with quiet():
+                            got = call()
+                    except Exception as e:
+                        ctx.issue("violation", f"FuzzyART.get_bounding_box:n={ncls}:{exc_enum(e)}",
+                                  f"get_bounding_box(w, n={n!r}) ({form}) raised {e!r} on the admissible request 0 <= n <= d = {d}", rep)
+                        continue
+                    check_box(ctx, "get_bounding_box", ncls, n, n_eff, d, w0, got, want, rep)
+                    if not np.array_equal(w, w0):
+                        ctx.issue("violation", "FuzzyART.get_bounding_box:mutates-arguments", "w changed by the accessor", rep)
+                    cov.case(("FuzzyART.get_bounding_box", w0.tolist(), None if n is None else int(n), form), kind == "reached")
+                cov.hit(f"bbox-edge:n={ncls}:{kind}")
+                if isinstance(n, np.integer):
+                    cov.hit(f"bbox-edge:n={ncls}:numpy-integer")
+        # estimator-level accessor on the model as trained
+        W0 = [np.array(w_, dtype=float).copy() for w_ in m.W]
+        for ncls, n in requests:
+            n_eff = d if n is None else int(n)
+            snap0 = full_snapshot(m)
+            rep = {"class": "FuzzyART", "entry": "get_bounding_boxes", "spec": spec, "X": X, "W": W0,
+                   "n": None if n is None else int(n), "n_type": type(n).__name__}
+            try:
+                with quiet():
+                    boxes = m.get_bounding_boxes() if n is None else m.get_bounding_boxes(n=n)
+            except Exception as e:
+                ctx.issue("violation", f"FuzzyART.get_bounding_boxes:n={ncls}:{exc_enum(e)}",
+                          f"get_bounding_boxes(n={n!r}) raised {e!r} on a model with {len(W0)} categories of dimension {d}", rep)
+                continue
+            if not isinstance(boxes, list) or len(boxes) != len(W0):
+                ctx.issue("violation", f"FuzzyART.get_bounding_boxes:n={ncls}:one-box-per-category",
+                          f"{len(W0)} categories, returned {boxes!r}", rep)
+                continue
+            for j, (w_, got) in enumerate(zip(W0, boxes)):
+                want = box_of_weight(w_, n_eff)
+                check_box(ctx, "get_bounding_boxes", ncls, n, n_eff, d, w_, got, want, dict(rep, category=j, w=w_, expected=want))
+            if not eq_snap(full_snapshot(m), snap0):
+                ctx.issue("violation", "FuzzyART.get_bounding_boxes:mutates-model", "model state changed by the accessor", rep)
+            cov.hit(f"bboxes-edge:n={ncls}:{len(W0) > 1 and 'several-categories' or 'one-category'}")
+        # shrink_clusters at the ends of the ratio range
+        if W0:
+            ratio = [0.0, 0.5][i % 2]
+            with quiet():
+                m.shrink_clusters(ratio)
+            for w_old, w_new in zip(W0, m.W):
+                w_new = np.asarray(w_new, dtype=float)
+                lo, hi = w_old[:d], 1 - w_old[d:]
+                lo2, hi2 = w_new[:d], 1 - w_new[d:]
+                ok = (np.allclose((lo + hi) / 2, (lo2 + hi2) / 2, rtol=0, atol=1e-12) and np.all(lo2 >= lo - 1e-12)
+                      and np.all(hi2 <= hi + 1e-12) and np.all(lo2 <= hi2 + 1e-12))
+                if ratio == 0.0:
+                    ok = ok and np.allclose(w_new, w_old, rtol=0, atol=1e-12)
+                else:
+                    ok = ok and np.allclose(lo2, hi2, rtol=0, atol=1e-12)
+                if not ok:
+                    ctx.issue("violation", f"FuzzyART.shrink_clusters:ratio={ratio}:geometry",
+                              f"old {w_old.tolist()} new {w_new.tolist()}", {"w": w_old, "ratio": ratio, "new": w_new})
+            cov.hit(f"shrink-edge:ratio={ratio}")
+
+
+def check_box(ctx, entry, ncls, n, n_eff, d, w, got, want, rep):
+    """the returned box has exactly n_eff coordinates and they are those of the stored weight"""
+    try:
+        ref, wid = got
+        ref = [float(a) for a in ref]
+        wid = [float(a) for a in wid]
+    except Exception:
+        ctx.issue("violation", f"FuzzyART.{entry}:n={ncls}:shape", f"returned {got!r}, not a (reference point, widths) pair", rep)
+        return
+    rep = dict(rep, returned=(ref, wid))
+    if len(ref) != n_eff or len(wid) != n_eff:
+        ctx.issue("violation", f"FuzzyART.{entry}:n={ncls}:wrong-number-of-dimensions",
+                  f"{entry}(n={n!r}) on the weight {np.asarray(w).tolist()} (d = {d}) returned a box of {len(ref)} reference / "
+                  f"{len(wid)} width coordinates; {n_eff} were requested: expected {want!r}, got {(ref, wid)!r}", rep)
+    elif not (all(close(a, b) for a, b in zip(ref, want[0])) and all(close(a, b) for a, b in zip(wid, want[1]))):
+        ctx.issue("violation", f"FuzzyART.{entry}:n={ncls}:disagrees-with-weight",
+                  f"{entry}(n={n!r}) on the weight {np.asarray(w).tolist()} returned {(ref, wid)!r}; the stored box is {want!r}", rep)
 
 
 # ---------------------------------------------------------------- published equations of the other modules
